@@ -18,7 +18,7 @@ PROPS = {
         "rule": "seeded generator: raft.Logs over varint boundaries 2^(7k)+-1, MaxUint64, nil/empty/64KiB-crossing data, 7 time shapes x 6 zone shapes; malformed stream of 7 mutation kinds; distinct = distinct input lines",
     },
     "C14": {
-        "streams": [S("sched14", 6000, 60000, vm=(25, 250), vm_maxlen=400, timeout=3000)],
+        "streams": [S("sched14", 4500, 60000, vm=(25, 250), vm_maxlen=400, timeout=3000)],
         "trusted": [GO, "Go runtime scheduler/memory model: the model's atomic steps are the code's atomic actions and hook points; goroutine exit and file-handle release are observed (runtime.Stack, in-memory VFS accounting), not proved"],
         "assumptions": ["single writer goroutine (StoreLogs/DeleteRange are issued by one thread of the schedule); any number of readers, stable-store callers and Close callers",
                         "in-memory VFS/MetaStore emulate *os.File (read after Close fails) and BoltMetaDB (calls after Close fail)",
@@ -26,7 +26,7 @@ PROPS = {
         "rule": "every API method x 9 call windows x 5 stages of Close x 3 initial logs; writer waiting for a pending rotation x rotator stage x Close stage; random programs/schedules; distinct = distinct input lines",
     },
     "C06": {
-        "streams": [S("sched06", 2800, 40000, vm=(20, 200), vm_maxlen=400, timeout=3000)],
+        "streams": [S("sched06", 2200, 40000, vm=(20, 200), vm_maxlen=400, timeout=3000)],
         "trusted": [GO, "Go memory model: data-race freedom is judged by the race detector on the harness binary (thorough tier), the model-level statement is C06_no_conflict_partial"],
         "assumptions": ["single writer; base-index resets are run on the implementation only (not in the model)",
                         "linearizability and use-after-close freedom are not proved: every read of every forced and free-running history is checked by the Go history checker (mirror of Readers.lin_check)"],
